@@ -80,6 +80,14 @@ def load_known(prop):
     return [e for e in data.get('findings', []) if e.get('property') == prop]
 
 
+def load_documented(prop):
+    if not os.path.exists(KNOWN):
+        return []
+    with open(KNOWN, encoding='utf8') as f:
+        data = json.load(f)
+    return [e for e in data.get('documented', []) if e.get('property') == prop]
+
+
 def match_known(finding, known):
     for k in known:
         if k['rule'] == finding['rule'] and k['where'] == finding['where'] and \
@@ -129,6 +137,11 @@ def finish(ctx, t0, assumptions, level='other', selftest=None):
     for f, k in listed:
         print('KNOWN-FINDING: property=%s %s %s :: %s -- %s' % (
             ctx.prop, f['rule'], f['where'], f['construct'], k.get('what', f['why'])))
+    # genuine defects confirmed by experiment against the real code that no rule of this property decides (they are properties of
+    # algorithms / heuristics, not of the shape of the code): listed so that they are known, never matched against anything
+    for e in load_documented(ctx.prop):
+        print('KNOWN-FINDING: property=%s [found by experiment; not decided by the static rules] %s -- input: %s; reproducer %s; not repaired: %s' % (
+            ctx.prop, e['what'], e['input'], e['reproducer'], e['why_not_repaired']))
     rc = 0
     for i, (f, _) in enumerate(new):
         path = os.path.join(rdir, '%s-%d.json' % (ctx.prop, i))
@@ -171,6 +184,7 @@ def finish(ctx, t0, assumptions, level='other', selftest=None):
         'instances_per_rule': counts,
         'rule_floors': {r: n for r, (n, _) in ctx.floors.items()},
         'known_findings_present': [clean(f) for f, _ in listed],
+        'documented_findings_not_decided_statically': load_documented(ctx.prop),
         'new_findings': [clean(f) for f, _ in new],
         'notes': ctx.notes,
     }
